@@ -406,4 +406,10 @@ func (group *Group) delIn() {
 	group.httptsGopCache.Clear()
 	group.sdpCtx = nil
 	group.patpmt = nil
+
+	// 输入流结束后，编码信息也需要清空，否则下一次输入流（比如纯音频流）加入的sub session会一直等待视频关键帧
+	group.stat.AudioCodec = ""
+	group.stat.VideoCodec = ""
+	group.stat.VideoWidth = 0
+	group.stat.VideoHeight = 0
 }
